@@ -2985,7 +2985,10 @@ def transform_pseudo_instructions(items, constants, labels):
             env = ChainMap(constants, labels)
             value = imm.eval(position, env, item.line)
             value = c_int32(value).value  # signed imm
-            if value >= (-2**11) and value <= (2**11 - 1):
+            # a value that depends on labels isn't final yet (labels still move):
+            # it may leave the 12-bit range later so always use both instructions
+            unsettled = depends_on_labels(imm, position, constants, item.line)
+            if value >= (-2**11) and value <= (2**11 - 1) and not unsettled:
                 inst = ITypeInstruction(item.line, 'addi', rd=rd, rs1='x0', imm=Lo(imm))
                 # shrink all subsequent labels by 4
                 new_labels = {k: v - 4 for k, v in labels.items() if v > position}
@@ -2997,7 +3000,8 @@ def transform_pseudo_instructions(items, constants, labels):
                 new_items.append(inst)
                 log_conversion('transform_pseudo_instructions', item, inst)
 
-                inst = ITypeInstruction(item.line, 'addi', rd=rd, rs1=rd, imm=Lo(imm))
+                # both halves must see the same value: resolve %lo relative to the lui (like an auipc pair)
+                inst = ITypeInstruction(item.line, 'addi', rd=rd, rs1=rd, imm=Lo(imm), is_auipc_jump=unsettled)
         elif item.name == 'mv':
             rd, rs = item.args
             inst = ITypeInstruction(item.line, 'addi', rd=rd, rs1=rs, imm=Arithmetic('0'))
